@@ -38,8 +38,8 @@ XTP_SRC = ["davidsonsolver", "matrixfreeoperator", "progressobserver", "job", "g
 XTP_SRC = XTP_SRC[:16]
 
 ENV_RUN = {
-    "ASAN_OPTIONS": "detect_leaks=0:detect_container_overflow=0:handle_abort=0:allocator_may_return_null=1",
-    "UBSAN_OPTIONS": "print_stacktrace=1",
+    "ASAN_OPTIONS": "detect_leaks=0:detect_container_overflow=0:handle_abort=0:allocator_may_return_null=1:exitcode=86:quarantine_size_mb=16:malloc_context_size=4",
+    "UBSAN_OPTIONS": "print_stacktrace=1:exitcode=86",
 }
 
 
@@ -255,13 +255,13 @@ def run_rc(prop, hname, seed, cases, procs, workdir, budget_s, extra_args=(), ma
             for f in st["failures"]:
                 f["harness"] = hname
                 failures.append(f)
-        if os.path.exists(crash) and p.returncode not in (0, 1):
+        if os.path.exists(crash):  # written only by the death callback / SIGABRT handler (sanitizers exit with code 86, see ENV_RUN)
             try:
                 cj = json.load(open(crash))
             except Exception:
                 cj = dict(property=prop, sub="?", case=None)
             tail = open(f"{workdir}/{hname}.log.{k}", errors="replace").read()[-3000:]
-            key = "sanitizer-or-abort"
+            key = "no-termination-within-cpu-budget" if cj.get("cpu_budget") else "sanitizer-or-abort"
             failures.append(dict(property=prop, sub=cj.get("sub"), key=key, msg="process died: " + tail, case=cj.get("case"),
                                  harness=hname, crash=True))
         elif p.returncode not in (0, 1, -9) and not exhausted:
